@@ -181,13 +181,24 @@ def call_request_profile(it, fn, a):
 def call_init(it, fn, a):
     made = []
 
+    policies = []
+
     def m_jar(it_, args, kw):
         j = Marker(f"CookieJar#{len(made)}")
         made.append(j)
+        policies.append(args[0] if args else kw.get("policy"))
         return j
+
+    def m_policy(it_, args, kw):
+        # a policy object built with restricting arguments is not the standard policy
+        return Marker("DefaultCookiePolicy", restricted=bool(args) or any(v is not None and v is not False for k, v in kw.items()
+                                                                            if k in ("blocked_domains", "allowed_domains", "secure_protocols")) or
+                      any(k not in ("blocked_domains", "allowed_domains", "secure_protocols") for k in kw))
     it.models[http.cookiejar.CookieJar] = m_jar
+    it.models[http.cookiejar.DefaultCookiePolicy] = m_policy
     o = it.call(OFXClient, list(a), {})
-    return (o, made)
+    standard = all(p is None or (isinstance(p, Marker) and p.label == "DefaultCookiePolicy" and not p.attrs.get("restricted")) for p in policies)
+    return (o, made, standard)
 
 
 CONTRACTS = [
@@ -239,8 +250,10 @@ CONTRACTS += [
     # 7 ------------------------------------------------------------------ every instance gets its own fresh cookie jar
     Contract("ofxtools.Client:OFXClient.__init__",
              args=[T("url")], call=call_init,
-             ensures=[("fresh-jar", "len(result[1]) == 1 and result[0].cookiejar is result[1][0]")],
-             notes="the jar is allocated inside __init__ and stored nowhere else, so no other instance can reach it; cookie replay itself is http.cookiejar (T-EXT)",
+             ensures=[("fresh-jar", "len(result[1]) == 1 and result[0].cookiejar is result[1][0]"),
+                      ("jar-with-the-standard-unrestricted-policy", "result[2]")],
+             notes="the jar is allocated inside __init__ and stored nowhere else, so no other instance can reach it; cookie replay itself is http.cookiejar "
+                   "under its standard policy (T-EXT) - a jar built with a restricting policy (allowed/blocked domains) would not replay what every server sets",
              props=["C14"], symbolic_only=True),
 ]
 
@@ -268,6 +281,16 @@ class AInstant(Abstract):
         return isinstance(other, AInstant) and self.e == other.e
 
 
+def content_read(fs):
+    """what a read of the cache file returns.  Sequential model: the content the file had when the call began (CACHE0).
+    Interference model (fs['interference']): another writer may have truncated or rewritten the file between any two steps of
+    this call, so every read returns a content of its own about which nothing is known."""
+    n = fs["reads"] = fs.get("reads", 0) + 1
+    if fs.get("interference") and n > 1:
+        return z3.Const(f"CACHE_as_read_{n}", V)
+    return fs["content"]
+
+
 class APath(Abstract):
     pytype = pathlib.PurePath
 
@@ -277,6 +300,8 @@ class APath(Abstract):
     def p_getattr(self, it, name):
         if name == "exists":
             return lambda: SBool(self.fs["present"])
+        if name == "read_bytes":
+            return lambda: SVal(bytes, content_read(self.fs), {"eq": "term"})
         raise C.Unsupported(f"path.{name}")
 
 
@@ -295,7 +320,7 @@ class AFile(Abstract):
 
     def p_getattr(self, it, name):
         if name == "read":
-            return lambda: SVal(bytes, self.fs["content"], {"eq": "term"})
+            return lambda: SVal(bytes, content_read(self.fs), {"eq": "term"})
         if name == "write":
             def write(data):
                 log(it, "fs-write", data)
@@ -327,6 +352,8 @@ class AParser(Abstract):
     def p_getattr(self, it, name):
         if name == "parse":
             def parse(buf):
+                if isinstance(buf, APath):
+                    buf = ABuf(SVal(bytes, content_read(buf.fs), {"eq": "term"}))     # the parser opens and reads the file itself
                 if not isinstance(buf, ABuf) or not isinstance(buf.content, SVal):
                     raise C.Unsupported("parse of a non-abstract buffer")
                 self.src = buf.content.e
@@ -352,8 +379,10 @@ class AOfxProfile(Abstract):
 
 
 def call_request_profile_cached(it, fn, a):
-    self, dryrun, cached = a
-    fs = {"present": cached.e if isinstance(cached, SBool) else z3.BoolVal(bool(cached)), "content": z3.Const("CACHE0", V), "events": []}
+    self, dryrun, cached = a[:3]
+    persist = a[3] if len(a) > 3 else True
+    fs = {"present": cached.e if isinstance(cached, SBool) else z3.BoolVal(bool(cached)), "content": z3.Const("CACHE0", V), "events": [],
+          "interference": len(a) > 4 and a[4] == "interference"}
 
     def m_open(it_, args, kw):
         return AFile(fs, args[1] if len(args) > 1 else "r", it_)
@@ -374,7 +403,7 @@ def call_request_profile_cached(it, fn, a):
     it.path_div = m_div
     it.models[pathlib.Path.mkdir] = lambda it_, args, kw: None
     try:
-        r = it.call(OFXClient.request_profile, [self], {"dryrun": dryrun})
+        r = it.call(OFXClient.request_profile, [self], {"dryrun": dryrun, "persist": persist})
     finally:
         pass
     return (r, fs)
@@ -384,7 +413,7 @@ C15_0 = len(CONTRACTS)
 INV0 = "(not cached or spec.client.cache_wellformed(spec.client.CACHE0()))"
 CONTRACTS += [
     Contract("ofxtools.Client:OFXClient.request_profile",
-             args=[ClientArg(), BoolArg("dryrun"), BoolArg("cached")], call=call_request_profile_cached,
+             args=[ClientArg(), BoolArg("dryrun"), BoolArg("cached"), BoolArg("persist")], call=call_request_profile_cached,
              requires=[INV0],
              ensures=[("dry-run-writes-nothing", "not dryrun or len(spec.client.calls(ghost, 'fs-open-for-write')) == 0"),
                       ("asks-with-the-date-held", "spec.client.asked_with(ghost, cached)"),
@@ -394,6 +423,19 @@ CONTRACTS += [
                        "dryrun or spec.client.response_code() == 1 or (spec.client.response_code() == 0 and spec.client.is_content(result[0], spec.client.RESPONSE()) and spec.client.written_exactly(ghost, spec.client.RESPONSE()) and (not cached or spec.client.dt(spec.client.CACHE0()) <= spec.client.dt(spec.client.RESPONSE())))"),
                       ("invariant-preserved", "dryrun or spec.client.response_code() == 1 or spec.client.cache_wellformed(spec.client.RESPONSE())")],
              raises=[(Exception, "len(spec.client.calls(ghost, 'fs-open-for-write')) == 0 and spec.client.failure_justified(cached)", "may")],
-             notes="sequential, atomic calls only; ghost file = (present, content); the parser is abstract: parse_ok / status code / DTPROFUP of a byte string; every raising path (transport error, garbage, error status, older profile) is proved to come before the cache file is opened for writing",
+             notes="for either value of the persist option; sequential, atomic calls only; ghost file = (present, content); the parser is abstract: parse_ok / status code / DTPROFUP of a byte string; every raising path (transport error, garbage, error status, older profile) is proved to come before the cache file is opened for writing",
+             props=["C15"], symbolic_only=True),
+    # the part of the concurrency clause a per-call contract can carry (rely/guarantee): whatever other writers do to the cache file
+    # between the steps of this call - so every read of it may see an empty, partial or different file - the bytes a successful
+    # call hands back, and the bytes it writes, are bytes this very call has parsed as one whole profile
+    Contract("ofxtools.Client:OFXClient.request_profile",
+             args=[ClientArg(), BoolArg("dryrun"), BoolArg("cached"), BoolArg("persist"), Const("mode", "interference")], call=call_request_profile_cached,
+             ensures=[("under-interference: only bytes this call has itself parsed as a whole profile are returned",
+                       "dryrun or spec.client.validated_by_this_call(result[0])"),
+                      ("under-interference: only the parsed response is written",
+                       "dryrun or len(spec.client.calls(ghost, 'fs-open-for-write')) == 0 or spec.client.written_exactly(ghost, spec.client.RESPONSE())")],
+             raises=[(Exception, "True", "may")],
+             notes="rely: the environment may change the cache file between any two steps (each read returns unconstrained content); "
+                   "guarantee: no unchecked read is passed on.  Interleavings of the WRITE steps (truncate / write) of two calls are not decided.",
              props=["C15"], symbolic_only=True),
 ]
